@@ -122,3 +122,111 @@ Theorem C12_marker_new_positions : forall source templated ss se ts te,
   source_position (tf_new source templated) m = linecol_from (1, 1) (firstn (N.to_nat ss) source).
 Proof. exact marker_new_spec. Qed.
 Print Assumptions C12_marker_new_positions.
+
+(** --- indent/dedent balance, as a theorem about the parser-engine interpreter (Pem, DESIGN 6.21).
+    [meta_balanced_b g] is a decidable condition on the dumped grammar graph, evaluated on every dialect's
+    graph on every run (coq/gen/PemMeta_<d>.v): a table of net values - what a match of a node adds to the
+    Indent/Dedent sum - is consistent node by node and gives the root the value 0.  [isum g m] is the sum of
+    [SyntaxKind::indent_val] over every entry of every [insert_segments] list of the match tree [m], i.e. over
+    the meta segments [MatchResult::apply] creates; [clean_b g m]: no unparsable node in [m]. *)
+From Coq Require Import FMapPositive ZArith.
+From Sq Require Import Pem.Model Pem.LayoutInv Pem.MetaBal Pem.MetaBalProofs Pem.MetaBalEx.
+
+(** For every balanced graph, every token list none of whose tokens already carries the kind of a named node
+    with a non-zero net value, every regex oracle, fuel and span: the metas of a root match without
+    unparsable section sum to zero. *)
+Theorem Pem_clean_parse_meta_balanced : forall g ptoks rx fuel s e m,
+  meta_balanced_b g = true -> plain_tokens_b g ptoks = true ->
+  parse_root g (toks_of_list ptoks) rx fuel s e = ROk m -> clean_b g m = true -> isum g m = 0%Z.
+Proof. exact parse_root_meta_balanced. Qed.
+Print Assumptions Pem_clean_parse_meta_balanced.
+
+(** The invariant behind it, for every node, start index, slice and terminator context and any consistent
+    table [t]: a match without unparsable section has the node's net value - or matched nothing and inserts
+    nothing - and, for a node flagged [tz], its own insert list sums to zero unless it stays with a named
+    node (what makes the insert list that [Bracketed] drops harmless). *)
+Theorem Pem_match_net_value : forall g t, consistent_b g t = true ->
+  forall toks rx fuel n idx len terms m, toks_plain g t toks ->
+  match_node g toks rx fuel n idx len terms = ROk m -> clean_b g m = true ->
+  (isum g m = tv t n \/ (has_match m = false /\ isum g m = 0%Z))
+  /\ (tz t n = true -> is_some (mr_matched m) = true \/ inssum g (mr_ins m) = 0%Z).
+Proof. exact match_node_net_value. Qed.
+Print Assumptions Pem_match_net_value.
+
+(** Without the side condition the interpreter does build parses without unparsable section whose metas do
+    not balance ... *)
+Theorem Pem_meta_balance_arbitrary_graph_refuted :
+  exists g ptoks rx fuel s e m,
+    meta_balanced_b g = false /\ plain_tokens_b g ptoks = true /\
+    parse_root g (toks_of_list ptoks) rx fuel s e = ROk m /\ clean_b g m = true /\ isum g m = 1%Z.
+Proof. exact meta_balance_arbitrary_graph_refuted. Qed.
+Print Assumptions Pem_meta_balance_arbitrary_graph_refuted.
+
+(** ... and without the hypothesis on the token kinds too: [NodeMatcher] takes a token that already carries
+    its kind as it is, without the inserts of its grammar. *)
+Theorem Pem_meta_balance_token_kind_refuted :
+  exists g ptoks rx fuel s e m,
+    meta_balanced_b g = true /\ plain_tokens_b g ptoks = false /\
+    parse_root g (toks_of_list ptoks) rx fuel s e = ROk m /\ clean_b g m = true /\ isum g m = (-1)%Z.
+Proof. exact meta_balance_token_kind_refuted. Qed.
+Print Assumptions Pem_meta_balance_token_kind_refuted.
+
+(** From the match result to the tree.  [tsum g t] is the sum of [indent_val] over the meta leaves of a tree.
+    [MatchResult::apply] creates exactly one meta per entry of every insert list of a well-formed match ... *)
+From Sq Require Import Apply.Proofs Pem.WfSafe Pem.MetaTree.
+Theorem C12_apply_metas_are_inserts : forall g ts x out,
+  wf (N.of_nat (length ts)) x = true -> apply ts x = Some out -> tsum_l g out = isum g x.
+Proof. exact apply_tsum. Qed.
+Print Assumptions C12_apply_metas_are_inserts.
+
+(** ... so, end to end on the interpreter: for a graph that is balanced and safe ([wf_safe_b], Props/C02.v),
+    plain tokens, any regex oracle and fuel, if the root match on the code span has no unparsable section then
+    the Indent / Implicit / Dedent metas of the File tree [root_parse] builds from it sum to zero. *)
+Theorem Pem_clean_parse_tree_meta_balanced : forall g ptoks rx ts fuel m t,
+  meta_balanced_b g = true -> wf_safe_b g = true -> plain_tokens_b g ptoks = true ->
+  map p_code ptoks = map t_code ts ->
+  parse_root g (toks_of_list ptoks) rx fuel (start_idx ts) (end_idx ts) = ROk m -> clean_b g m = true ->
+  root_parse ts (GOk m) = Some (POk t) -> tsum g t = 0%Z.
+Proof. exact parse_tree_meta_balanced. Qed.
+Print Assumptions Pem_clean_parse_tree_meta_balanced.
+
+(** --- bracket structure, as a theorem about the parser-engine interpreter.
+    [brk_safe_b g] is a decidable condition on the dumped grammar graph, evaluated on every dialect's graph
+    on every run (coq/gen/PemBrk_<d>.v): the start and end matchers of every bracket set (the dialect's
+    "bracket_pairs", the pair of every [Bracketed] node) are String/MultiString parsers behind Refs, matchers
+    that compare [==] parse the same strings into the same kind, and no NodeMatcher builds a node of kind
+    [bracketed].  It implies the side condition [wf_safe_b] of the well-formedness theorems (Props/C02.v).
+    [Shape g toks s e ch] - the children [ch] of a bracketed node spanning the tokens [s, e) -: the first child
+    is the opening bracket (one re-tagged code token at [s]), a later child is the closing bracket (one
+    re-tagged code token at [e - 1], behind the opening one), and the two tokens are accepted - text and
+    kind - by the start and the end parser of one and the same bracket pair of the graph. *)
+From Sq Require Import Pem.WfSafe Pem.BrkShape Pem.BrkShapeProofs Pem.BrkShapeEx.
+
+(** Every node of kind [bracketed], at any depth of the root match, for every safe graph, token map, regex
+    oracle, fuel and span. *)
+Theorem Pem_bracketed_shape : forall g toks rx fuel s e m x,
+  brk_safe_b g = true -> parse_root g toks rx fuel s e = ROk m -> sub m x ->
+  mr_matched x = Some (MKind (k_bracketed g)) -> Shape g toks (mr_start x) (mr_end x) (mr_ch x).
+Proof. exact bracketed_nodes_shape. Qed.
+Print Assumptions Pem_bracketed_shape.
+
+(** ... and of every match of every node, start index, slice and terminator context. *)
+Theorem Pem_match_bracketed_shape : forall g toks rx fuel n idx len terms m,
+  brk_safe_b g = true -> match_node g toks rx fuel n idx len terms = ROk m -> Shapes g toks m.
+Proof. exact match_node_bracket_shape. Qed.
+Print Assumptions Pem_match_bracketed_shape.
+
+Theorem Pem_brk_safe_wf_safe : forall g, brk_safe_b g = true -> wf_safe_b g = true.
+Proof. exact brk_safe_wf_safe. Qed.
+Print Assumptions Pem_brk_safe_wf_safe.
+
+(** [wf_safe_b] alone is not enough: with an opening "bracket" of two tokens every match is still well-formed,
+    but the bracketed node starts with an unnamed two-token match. *)
+Theorem Pem_bracket_shape_arbitrary_graph_refuted :
+  exists g ptoks rx fuel s e m,
+    wf_safe_b g = true /\ brk_safe_b g = false /\
+    parse_root g (toks_of_list ptoks) rx fuel s e = ROk m /\
+    mr_matched m = Some (MKind (k_bracketed g)) /\
+    ~ Shape g (toks_of_list ptoks) (mr_start m) (mr_end m) (mr_ch m).
+Proof. exact bracket_shape_arbitrary_graph_refuted. Qed.
+Print Assumptions Pem_bracket_shape_arbitrary_graph_refuted.
